@@ -121,7 +121,9 @@ def _containment(nl, nr, gives_up=False):
             # right-hand constraint by more than 1e-4*(1+|constant|).  One obligation per right-hand constraint, each with the
             # instances of its own LP only (the conjunction over three rows was one slow, unstable query)
             tested = calls[2:]
-            h.check("C03.containment.one_lp_per_right_hand_constraint", len(tested) == len(ar.rows) and all(c_.status == 0 for c_ in tested), "%d LPs for %d constraints" % (len(tested), len(ar.rows)))
+            if calls and calls[0].status != 2:
+                # (an empty left side is contained in anything: True without a single containment LP)
+                h.check("C03.containment.one_lp_per_right_hand_constraint", len(tested) == len(ar.rows) and all(c_.status == 0 for c_ in tested), "%d LPs for %d constraints" % (len(tested), len(ar.rows)))
             for i, (row, x) in enumerate(zip(ar.rows, br.data)):
                 hints = [c_.inst(p) for c_ in calls[:2]]
                 if i < len(tested) and tested[i].status == 0:
